@@ -10,6 +10,7 @@ import datetime
 
 import numpy as np
 
+from sx.logic import NOT, OR
 from sx.runner import Unit
 
 ID = "C10"
@@ -233,7 +234,7 @@ def make_check_vectorised(kind):
                 li = ctx.uf("LL", x["x"][i], x["y"][i])
                 d = li - l0
                 far = far | (abs(d) > 1e-3 * (1 + abs(li)))
-            ctx.prove((r is False) | ~far if not isinstance(far, bool) else ((r is False) or not far),
+            ctx.prove(OR(r is False, NOT(far)),
                       "a function whose batch values differ from the pointwise ones is not treated as vectorised")
         ctx.cover("end")
     return body
